@@ -152,6 +152,8 @@ class Prov:
                     it = strip(self.local_tree(e[1], depth + 1))
                     if it[0] == "path" and it[1][0] == "arg" and not it[2]:
                         names[i] = "[@arg%d]" % it[1][1]
+                    elif it[0] == "const" and isinstance(it[1], int) and not isinstance(it[1], bool):
+                        names[i] = "[%d]" % it[1]
         base = self.local_tree(l, depth + 1)
         return self._project(base, names)
 
@@ -683,6 +685,9 @@ class Prov:
             st = self.body.ty(c["self_ty"])
             if st["k"] == "adt":
                 key = "%s::<%s as %s>::%s" % (st["path"].rsplit("::", 1)[0], st["name"], c["trait"], c["name"])
+        if c["name"] == "into" and len(args) == 1 and (c.get("trait") or "").endswith("convert::Into"):
+            # `x.into()` is `T::from(x)` (the blanket impl): one spelling
+            return ("call", key, "from", args)
         return ("call", key, c["name"], args)
 
 
